@@ -115,3 +115,18 @@ func Harness_C05_on_demand_whole_pipeline_pairs_T() {
 	verifAssert("same-verdict-with-summarize-on-demand-on-and-off", eager == onDemand)
 }
 
+
+// C07 (also C01): with field sensitivity on, the whole taint pipeline terminates on every single-transport program
+// whose chain runs inside a callee and whose sink receives a struct holding the value (the shapes on which the
+// traversal used to diverge, D19).
+func Harness_C07_field_sensitive_pipeline_terminates() {
+	t := verifPick("transport", 0, df.VerifNumTransports-1)
+	verifAssume(df.VerifSequentialTransport(t))
+	stringData := verifPick("string-data", 0, 1) == 1
+	w := df.VerifBuildDirectFlow([]int{t}, []int{1}, 0, 1, stringData)
+	// the assertions of this harness are the termination window and the absence of Go panics inside c01ProgReported;
+	// the verdict itself is C01's subject (thorough tier of Harness_C01_flow_through_transport)
+	if c01ProgReported(w, c01ProgConfig(true, false)) {
+		verifReach("flow-reported-with-field-sensitivity")
+	}
+}
